@@ -108,7 +108,8 @@ fn c20_run(ctx: &ShardCtx) -> ShardResult {
                     continue;
                 }
             };
-            let b = match crate::engine::guard("C20", || transcript(&case)) {
+            // second run: an unrelated third world is busy in between (merge histories)
+            let b = match crate::engine::guard("C20", || props_save::with_noise(|| transcript(&case))) {
                 Ok(t) => t,
                 Err(v) => return fail(stats, Violation::new("C20", "second-run-differs", format!("the second in-process run of the same history failed although the first did not: {}", v.msg)), &case),
             };
@@ -196,7 +197,7 @@ pub fn transcript_main(infile: &str, outfile: &str) -> i32 {
 fn c20_replay(v: &Value) -> Verdict {
     let c: DetCase = parse_case("det", v)?;
     let a = transcript(&c)?;
-    let b = transcript(&c)?;
+    let b = props_save::with_noise(|| transcript(&c))?;
     if a != b {
         return Err(Violation::new("C20", "in-process-divergence", first_divergence(&a, &b)));
     }
